@@ -227,7 +227,11 @@ func c08OpInitReady(a []string) string {
 		}
 	}
 	answers := []peer.ID{}
-	for _, i := range c08Subset(a[2]) { // indexes count the OTHER holders: 1 and 2 = the two that are not this relayer
+	for _, i := range c08Subset(a[2]) { // 1 and 2 = the two holders that are not this relayer, 3 = a relayer without a share
+		if i == 3 {
+			answers = append(answers, c08PoolPeer(3))
+			continue
+		}
 		answers = append(answers, all[(self+i)%3])
 	}
 	host := &c08Host{id: all[self], peers: all}
